@@ -104,7 +104,31 @@ def apply_resolved(target, op, rots):
         P9.apply_op(target, op, rots)
 
 
+def reattach(objs, step):
+    """re-attach the node at step["at"] to the collection it already belongs to: by attribute, by add(), or via
+    another collection and back.  The tree (who is a member of whom) is the same afterwards."""
+    byp = dict((tuple(p), o) for p, o in objs)
+    child, parent = byp[tuple(step["at"])], byp[tuple(step["at"][:-1])]
+    mode = step["op"]["mode"]
+    if mode == "attr":
+        child.parent = parent
+    elif mode == "add":
+        parent.add(child, override_parent=True)
+    elif mode == "other-and-back":
+        tmp = magpy.Collection()
+        child.parent = tmp
+        child.parent = parent
+    elif mode == "none-and-back":
+        child.parent = None
+        parent.add(child)
+    else:
+        raise ValueError(mode)
+
+
 def apply_tree_op(objs, step, rots):
+    if step["op"]["op"] == "reattach":
+        reattach(objs, step)
+        return
     target, op = resolve_step(objs, step)
     apply_resolved(target, op, rots)
 
@@ -329,6 +353,18 @@ def check_history(tree, hist, rots, with_field=False, stats=None):
     paths = [p for p, _ in nodes]
     for si, step in enumerate(hist):
         at = step["at"]
+        if step["op"]["op"] == "reattach":      # a tree edit that keeps every membership: no pose may change
+            before = snap_all(objs)
+            try:
+                reattach(objs, step)
+            except Exception as e:   # pylint: disable=broad-except
+                return {"step": si, "clause": "raises", "what": f"re-attaching a child raised {type(e).__name__}: {e}",
+                        "c": at, "d": at}
+            for j, (b, a) in enumerate(zip(before, snap_all(objs))):
+                if b[0].shape != a[0].shape or not np.array_equal(b[0], a[0]) or not np.array_equal(b[1], a[1]):
+                    return {"step": si, "clause": "frame", "what": f"re-attaching node {at} changed the pose of node {paths[j]}",
+                            "c": at, "d": paths[j]}
+            continue
         target, op = resolve_step(objs, step)
         before = snap_all(objs)
         unit = tree.get("s", 1.0)
@@ -437,6 +473,8 @@ def signature(tree, hist, res):
 def op_kind(op):
     """kind of operation / input / anchor / start, never raw numbers"""
     k = op["op"]
+    if k == "reattach":
+        return "reattach:" + op["mode"]
     if "near" in op:
         return k + ":near-current-value"
     if k in ("move", "rotate"):
@@ -603,6 +641,9 @@ def special_step(rng, nodes, at):
             "anchor": {"alias": other, "attr": "_position"}, "start": P9.gen_start(rng)}
 
 
+REATTACH_MODES = ["attr", "add", "other-and-back", "none-and-back"]
+
+
 def gen_float_case(rng, nops):
     u = rng.choice(SCALES)
     tree = gen_float_tree(rng, rng.randint(1, 4), u)
@@ -611,6 +652,11 @@ def gen_float_case(rng, nops):
     for st in hist:
         if rng.random() < 0.15:
             st["op"] = special_step(rng, nodes, st["at"])
+    # tree edits that keep every membership, early in the history (the pose operations follow)
+    inner = [p for p, _ in nodes if p]
+    for _ in range(rng.choice([0, 0, 1, 1, 2])):
+        hist.insert(rng.randint(0, max(0, len(hist) // 2)),
+                    {"at": rng.choice(inner), "op": {"op": "reattach", "mode": rng.choice(REATTACH_MODES)}})
     return {"tree": tree, "hist": hist}
 
 
@@ -658,6 +704,18 @@ def battery_cases():
             # each special step once on a fresh tree, and all of them as one history
             for st in steps:
                 out.append({"tree": tree, "hist": [{"at": at, "op": st}]})
+            # a member re-attached to the collection it already belongs to, then the pose operations
+            pose_ops = [{"op": "move", "d": [0.3 * u, -0.2 * u, 0.1 * u], "start": "auto"},
+                        {"op": "rotate", "r": [0.2, -0.4, 0.3], "anchor": None, "start": "auto"},
+                        {"op": "rotate", "r": [[0.1, 0.0, 0.3], [0.0, 0.5, 0.0]], "anchor": [0.0, u, 0.0], "start": 0},
+                        {"op": "setpos", "p": [[u, 0.0, 0.0], [0.0, u, 0.0]]},
+                        {"op": "setori", "r": [[0.3, 0.0, 0.1], [0.0, -0.2, 0.4]]}, {"op": "reset"}]
+            for child in ([0], [1], [1, 0], [1, 1], [1, 1, 1]):
+                if len(child) != len(at) + 1 or child[:len(at)] != at:
+                    continue
+                for mode in REATTACH_MODES:
+                    out.append({"tree": tree, "hist": [{"at": child, "op": {"op": "reattach", "mode": mode}}] +
+                                [{"at": at, "op": o} for o in pose_ops]})
             out.append({"tree": tree, "hist": [{"at": at, "op": st} for st in steps]})
     return out
 
